@@ -92,7 +92,11 @@ class PyFileWriter(AbstractWriter):
         except (OSError, IOError, UnicodeEncodeError):
             exc = sys.exc_info()
             if tfile and os.access(tfile, os.F_OK):
-                os.unlink(tfile)
+                try:
+                    os.unlink(tfile)
+
+                except OSError:
+                    pass
 
             raise error.PySmiWriterError('failure writing file %s: %s' % (pyfile, exc[1]), file=pyfile, writer=self)
 
@@ -112,7 +116,11 @@ class PyFileWriter(AbstractWriter):
 
             except Exception:
                 if pyfile and os.access(pyfile, os.F_OK):
-                    os.unlink(pyfile)
+                    try:
+                        os.unlink(pyfile)
+
+                    except OSError:
+                        pass  # another writer of the module has removed it
 
                 raise error.PySmiWriterError('failure compiling %s: %s' % (pyfile, sys.exc_info()[1]), file=mibname, writer=self)
 
